@@ -196,12 +196,15 @@ def file_case(case):
             for rel, spec in case["files"]:
                 p = os.path.join(d, rel)
                 os.makedirs(os.path.dirname(p), exist_ok=True)
-                cells = write_map(p, spec[0], spec[1], "row")
+                if isinstance(spec, str):
+                    # a recorded file (its reader reports progress per curve)
+                    shutil.copy(os.path.join("/repo/tests/data", spec), p)
+                else:
+                    cells = write_map(p, spec[0], spec[1], "row")
             cb = []
             grp = load_group(d, callback=cb.append)
             for pp in afmformats.find_data(d, modality="force-distance"):
-                n = len(IndentationGroup(pp))
-                expect += [(str(pp), i) for i in range(n)]
+                expect += [(str(pp), g.enum) for g in IndentationGroup(pp)]
             _check_group(grp, expect, cb, viol)
         elif kind == "meta":
             if case.get("csv"):
@@ -309,6 +312,15 @@ def file_cases(tier):
         [("m1.h5", (2, 2)), ("m2.h5", (3, 1)), ("m3.h5", (2, 2)),
          ("s.h5", (1, 1))],
         [("p/m1.h5", (3, 2)), ("q/m2.h5", (3, 2))],
+        [("a.jpk-force-map", "fmt-jpk-fd_map2x2_extracted.jpk-force-map"),
+         ("b.jpk-force-map",
+          "fmt-jpk-fd_map-data-reference-points.jpk-force-map"),
+         ("c.jpk-force", "fmt-jpk-fd_spot3-0192.jpk-force")],
+        [("x/b.jpk-force-map",
+          "fmt-jpk-fd_map-data-reference-points.jpk-force-map"),
+         ("y/a.jpk-force-map", "fmt-jpk-fd_map2x2_extracted.jpk-force-map"),
+         ("y/d.jpk-force-map", "fmt-jpk-fd_map1d_2016-11-07.jpk-force-map"),
+         ("z.h5", (2, 2))],
     ]
     for f in folders:
         cases.append({"kind": "file", "sub": "folder", "files": f})
